@@ -27,3 +27,8 @@ pub fn slice_get_unchecked_mut<T>(s: &mut [T], i: usize) -> (r: &mut T)
     requires i < old(s)@.len()
     ensures *r == old(s)@[i as int], final(s)@ == old(s)@.update(i as int, *final(r))
 { unsafe { s.get_unchecked_mut(i) } }
+
+// Option / Result combinators the code (or a plausible edit of it) uses
+pub assume_specification<T, E> [Result::<T, E>::unwrap_or] (r: Result<T, E>, default: T) -> (out: T)
+    ensures out == (match r { Ok(v) => v, Err(_) => default });
+
